@@ -622,6 +622,34 @@ def report(ctx, calls, raised, alias, lens, mutated, info, verdict, label):
                                           "observed_mutating": sorted(mutated)}
 
 
+def diagnose(ctx, info, verdict):
+    """for every function the (Coq) analysis rejects: the offending write (call chain, variable, source line)
+    from the Python mirror translate/effects_debug.py; recorded in the evidence and in the replay file"""
+    rejected = sorted(q for q, (k, ok) in verdict.items() if not ok)
+    if not rejected or ctx.res.extra.get("analysis_diagnostics"):
+        return
+    out = {}
+    try:
+        sys.path.insert(0, os.path.join(VERIF, "translate"))
+        import effects_ir, effects_debug
+        w, bodies, idx, finfo = effects_ir.translate_all()
+        A = effects_debug.Analysis(w, bodies, finfo)
+        byq = {f["qual"]: f for f in finfo}
+        for q in rejected:
+            fi = byq[q]
+            r = A.check(q, None if fi["public"] else [True] * len(fi["params"]))
+            out[q] = r or "python mirror accepts (disagrees with Coq!)"
+    except Exception as e:
+        out["error"] = repr(e)
+    ctx.res.extra["analysis_diagnostics"] = out
+    for q, r in out.items():
+        if isinstance(r, dict):
+            ctx.k_mismatch(f"effect analysis rejects {q}: possible write to an argument-reachable object through variable `{r['var']}` at "
+                           f"koala/{r['module'].replace('.', '/')}.py:{r['line']} (call chain {' -> '.join(r['chain'])})", None)
+        else:
+            ctx.k_mismatch(f"effect analysis rejects {q}: {r}", None)
+
+
 def run(ctx):
     res = ctx.res
     res.rule = ("random call sequences (length 1..30) over every public function of lattice, graph_utils, graph_color, flux_finder, hamiltonian, phase_space, "
@@ -630,6 +658,7 @@ def run(ctx):
                 "fingerprints (dtype, shape, flags, bytes; lattice: defining arrays, eager fields, every populated cached attribute; module-level defaults) before/after each call; "
                 "every step re-evaluated on fresh copies.  non-trivial = sequence of length >= 2")
     info, verdict = analysis_verdicts(ctx)
+    diagnose(ctx, info, verdict)
     n = 600 if ctx.tier == "quick" else 5000
     calls, raised, alias, lens, mutated = sweep(ctx, n, ctx.seed)
     report(ctx, calls, raised, alias, lens, mutated, info, verdict, "run")
